@@ -15,11 +15,9 @@ import (
 	"fmt"
 	"os"
 	"runtime/pprof"
-	"sort"
-	"strings"
+		"strings"
 	"sync"
-	"time"
-
+	
 	"wa-lang.org/wa/internal/zzverif/mc"
 	"wa-lang.org/wa/internal/zzverif/progs"
 	"wa-lang.org/wa/internal/zzverif/rcmon"
@@ -119,125 +117,46 @@ func main() {
 
 	hs := progs.OwnHistories(maxLen, false)
 	hs = append(hs, progs.OwnHistories(maxSeeded, true)...)
-	if f := os.Getenv("C11_ONLY"); f != "" { // debugging aid: restrict to histories whose pattern contains f
-		var sel []progs.OwnHistory
-		for _, h := range hs {
-			if strings.Contains(h.Pattern(), f) {
-				sel = append(sel, h)
-			}
-		}
-		hs = sel
+	if f := os.Getenv("C11_OPS"); f != "" { // debugging / mutant demonstration: restrict the alphabet
+		hs = progs.OwnRestrict(hs, f)
+		r.Cap("alphabet restricted by C11_OPS=" + f)
 	}
 	r.Bound("histories", len(hs))
 
 	pool := mc.NewPool(mc.NWorkers(), nil)
 	defer pool.Close()
+	rcmon.InstallRetire(pool)
 
 	var spans [][2]int
 	for lo := 0; lo < len(hs); lo += casesPerProgram {
 		spans = append(spans, [2]int{lo, min(lo+casesPerProgram, len(hs))})
 	}
 	results := make([]histResult, len(hs))
-	var tot struct {
-		sync.Mutex
-		malloc, free, retain, release int64
-	}
 
 	// Go reference for every program (cached by source hash), concurrently with the Wa side.
-	srcs := make([]string, len(spans))
+	// The Go programs use the initial packing; the Wa side may re-pack (bisection, hangs).
 	goRes := make([][]wrun.CaseResult, len(spans))
 	goErr := make([]error, len(spans))
-	for i, sp := range spans {
-		srcs[i] = progs.OwnProgram(hs[sp[0]:sp[1]])
-	}
 	var wg sync.WaitGroup
 	wg.Add(1)
 	go func() {
 		defer wg.Done()
 		mc.ParallelFor(len(spans), func(i int) {
-			goRes[i], goErr[i] = wrun.GoRef(srcs[i], spans[i][1]-spans[i][0])
+			goRes[i], goErr[i] = wrun.GoRef(progs.OwnProgram(hs[spans[i][0]:spans[i][1]]), spans[i][1]-spans[i][0])
 		})
 	}()
 
-	waRes := make([]*rcmon.JobResult, len(hs)) // per history: the job result that contains it
-	waIdx := make([]int, len(hs))              // and its case index there
-	waFail := make([]string, len(hs))          // or why the Wa side could not run it
-	var runSpan func(lo, hi int, attempt int)
-	runSpan = func(lo, hi int, attempt int) {
-		// runs histories [lo,hi) as one program; on whole-program failure splits
-		src := progs.OwnProgram(hs[lo:hi])
-		var res mc.Result
-		pool.Run(1, func(int) interface{} {
-			return rcmon.Job{Src: src, N: hi - lo, Poison: []bool{false, true}}
-		}, 15*time.Minute, func(x mc.Result) { res = x })
-		var jr rcmon.JobResult
-		bad := ""
-		if res.Status != "ok" {
-			bad = "worker " + res.Status + ": " + tail(res.Stderr, 400)
-		} else if err := json.Unmarshal(res.Out, &jr); err != nil {
-			bad = "bad worker output: " + err.Error()
-		} else if jr.Err != "" {
-			bad = jr.ErrKind + ": " + jr.Err
-		}
-		if bad == "" {
-			for i := lo; i < hi; i++ {
-				waRes[i], waIdx[i] = &jr, i-lo
+	rn := &rcmon.Runner{Pool: pool, Poison: []bool{false, true}, PerProgram: casesPerProgram, Expired: r.Expired,
+		Render: func(idx []int) string {
+			sel := make([]progs.OwnHistory, len(idx))
+			for k, c := range idx {
+				sel[k] = hs[c]
 			}
-			tot.Lock()
-			tot.malloc += jr.NMalloc
-			tot.free += jr.NFree
-			tot.retain += jr.NRetain
-			tot.release += jr.NRelease
-			tot.Unlock()
-			return
-		}
-		if hi-lo > 1 {
-			mid := (lo + hi) / 2
-			runSpan(lo, mid, 0)
-			runSpan(mid, hi, 0)
-			return
-		}
-		if res.Status != "ok" && attempt < 5 { // a hang/crash must reproduce alone 5 times
-			runSpan(lo, hi, attempt+1)
-			return
-		}
-		waFail[lo] = bad
-	}
-	// first pass: all spans through the pool at once
-	{
-		var mu sync.Mutex
-		var redo [][2]int
-		pool.Run(len(spans), func(i int) interface{} {
-			return rcmon.Job{Src: srcs[i], N: spans[i][1] - spans[i][0], Poison: []bool{false, true}}
-		}, 15*time.Minute, func(x mc.Result) {
-			sp := spans[x.Index]
-			var jr rcmon.JobResult
-			if x.Status == "ok" && json.Unmarshal(x.Out, &jr) == nil && jr.Err == "" {
-				for i := sp[0]; i < sp[1]; i++ {
-					waRes[i], waIdx[i] = &jr, i-sp[0]
-				}
-				tot.Lock()
-				tot.malloc += jr.NMalloc
-				tot.free += jr.NFree
-				tot.retain += jr.NRetain
-				tot.release += jr.NRelease
-				tot.Unlock()
-				return
-			}
-			mu.Lock()
-			redo = append(redo, sp)
-			mu.Unlock()
-		})
-		sort.Slice(redo, func(i, j int) bool { return redo[i][0] < redo[j][0] })
-		mc.ParallelFor(len(redo), func(i int) {
-			mid := (redo[i][0] + redo[i][1]) / 2
-			if mid > redo[i][0] {
-				runSpan(redo[i][0], mid, 0)
-				runSpan(mid, redo[i][1], 0)
-			} else {
-				runSpan(redo[i][0], redo[i][1], 0)
-			}
-		})
+			return progs.OwnProgram(sel)
+		}}
+	outs := rn.Run(len(hs))
+	if rn.Capped != "" {
+		r.Cap(rn.Capped)
 	}
 	wg.Wait()
 
@@ -272,14 +191,17 @@ func main() {
 				}
 				return m
 			}
-			if waRes[i] == nil {
+			o := outs[i]
+			if o.NotRun {
+				continue
+			}
+			if o.Modes == nil {
 				r.Evals.Add(1)
-				res.fails = append(res.fails, failure{"pipeline-failure", "compile", "Go runs the history, the Wa pipeline fails: " + clip(waFail[i]), mk(map[string]interface{}{"error": waFail[i]})})
+				res.fails = append(res.fails, failure{"pipeline-failure", "compile", "Go runs the history, the Wa pipeline fails: " + clip(o.Fail), mk(map[string]interface{}{"error": o.Fail})})
 				continue
 			}
 			r.Evals.Add(2)
-			plain := waRes[i].Modes[0].Cases[waIdx[i]]
-			pois := waRes[i].Modes[1].Cases[waIdx[i]]
+			plain, pois := o.Modes[0], o.Modes[1]
 			for mi, cr := range []rcmon.CallResult{plain, pois} {
 				mode := []string{"plain", "poisoned"}[mi]
 				for _, v := range cr.Violations {
@@ -287,16 +209,37 @@ func main() {
 						mk(map[string]interface{}{"mode": mode, "violation": v, "wa_output": cr.Out})})
 				}
 			}
-			if plain.Status != "ok" {
+			if plain.Status == "hang" || pois.Status == "hang" {
+				hm, mode := plain, "plain"
+				if plain.Status != "hang" {
+					hm, mode = pois, "poisoned"
+				}
+				res.fails = append(res.fails, failure{"hang", atName(h, hm.Mark), fmt.Sprintf("the case does not return (%s run; reproduced alone %d/5 times): %s", mode, o.HangRep, clip(hm.Err)),
+					mk(map[string]interface{}{"mode": mode, "err": hm.Err, "wa_output": hm.Out})})
+			}
+			if plain.Status == "hang" || pois.Status == "hang" || pois.Status == "skipped" {
+				// outputs are incomplete: only the monitor verdicts and the hang count
+			} else if plain.Status != "ok" {
 				res.fails = append(res.fails, failure{"trap", lineAt(h, plain.Out, g.Out), fmt.Sprintf("Go prints %q; Wa traps: %s (output so far %q)", clip(g.Out), plain.Err, clip(plain.Out)),
 					mk(map[string]interface{}{"wa_output": plain.Out, "wa_err": plain.Err})})
 			} else if plain.Out != g.Out {
 				res.fails = append(res.fails, failure{"output-differs-from-go", lineAt(h, plain.Out, g.Out), fmt.Sprintf("Go prints %q, Wa prints %q", clip(g.Out), clip(plain.Out)),
 					mk(map[string]interface{}{"wa_output": plain.Out})})
 			}
-			if pois.Status != plain.Status || pois.Out != plain.Out {
+			if plain.Status == "hang" || pois.Status == "hang" || pois.Status == "skipped" {
+			} else if pois.Status != plain.Status || pois.Out != plain.Out {
 				res.fails = append(res.fails, failure{"poison-changes-output", lineAt(h, pois.Out, plain.Out), fmt.Sprintf("without poisoning %q (%s), with freed memory overwritten by 0xA5 %q (%s %s)", clip(plain.Out), plain.Status, clip(pois.Out), pois.Status, pois.Err),
 					mk(map[string]interface{}{"wa_output": plain.Out, "wa_output_poisoned": pois.Out, "poisoned_err": pois.Err})})
+			}
+			if len(res.fails) > 1 {
+				// the first failure (monitor verdicts in order of occurrence, then hang, trap,
+				// output differences) is the cause; the rest are consequences kept in the replay
+				var also []string
+				for _, f := range res.fails[1:] {
+					also = append(also, f.class+"|at="+f.at)
+				}
+				res.fails = res.fails[:1]
+				res.fails[0].replay["consequences"] = also
 			}
 			if len(res.fails) == 0 && r.WantSample() && i%997 == 5 {
 				r.Sample(map[string]interface{}{"history": h.Names(), "seeded": h.Seeded, "output_go_wa_poisoned": g.Out})
@@ -328,15 +271,21 @@ func main() {
 			if hasFailingSub(res.h, sig, failSig) {
 				continue
 			}
+			if f.at == "entry" && !res.h.Seeded { // before the first operation: the history is irrelevant
+				r.Report(f.class+"|at=entry", f.what, f.replay)
+				continue
+			}
 			r.Report(f.class+"|at="+f.at+"|hist="+res.h.Pattern(), f.what, f.replay)
 		}
 	}
 	r.Extra("failing_histories", nfailing)
-	r.Extra("monitor_events", map[string]int64{"malloc": tot.malloc, "free": tot.free, "retain": tot.retain, "release": tot.release})
-	if tot.retain == 0 || tot.free == 0 || tot.malloc == 0 {
-		r.HarnessError("vacuous: the monitor saw malloc=%d free=%d retain=%d release=%d", tot.malloc, tot.free, tot.retain, tot.release)
+	r.Extra("monitor_events", map[string]int64{"malloc": rn.NMalloc, "free": rn.NFree, "retain": rn.NRetain, "release": rn.NRelease})
+	r.Extra("programs_compiled", rn.Programs)
+	r.Extra("hangs_not_reproduced_alone", rn.UnreproducedHangs)
+	if rn.Capped == "" && (rn.NRetain == 0 || rn.NFree == 0 || rn.NMalloc == 0) {
+		r.HarnessError("vacuous: the monitor saw malloc=%d free=%d retain=%d release=%d", rn.NMalloc, rn.NFree, rn.NRetain, rn.NRelease)
 	}
-	if r.DistinctCount() < len(hs)/20 {
+	if rn.Capped == "" && r.DistinctCount() < len(hs)/20 {
 		r.HarnessError("vacuous: only %d distinct outputs for %d histories", r.DistinctCount(), len(hs))
 	}
 	r.Finish()
@@ -385,9 +334,9 @@ func probe(path string) {
 		fmt.Println("ERROR", jr.ErrKind, jr.Err)
 		os.Exit(1)
 	}
-	for _, m := range jr.Modes {
-		for i, c := range m.Cases {
-			fmt.Printf("== case %d poison=%v status=%s %s\n%s", i, m.Poison, c.Status, c.Err, c.Out)
+	for i, ms := range jr.Cases {
+		for m, c := range ms {
+			fmt.Printf("== case %d poison=%v status=%s %s\n%s", i, m == 1, c.Status, c.Err, c.Out)
 			for _, v := range c.Violations {
 				fmt.Printf("   VIOLATION %s mark=%d %s\n     trace: %s\n", v.Class, v.Mark, v.Detail, strings.Join(v.Trace, " "))
 			}
